@@ -433,6 +433,31 @@ func (m *Manager) lock() {
 				acctInfo.acctKeyPriv.Zero()
 			}
 			acctInfo.acctKeyPriv = nil
+
+			// The last external/internal addresses of an account
+			// are kept outside of the address cache, so wipe their
+			// clear text private keys here.
+			lastAddrs := []ManagedAddress{
+				acctInfo.lastExternalAddr, acctInfo.lastInternalAddr,
+			}
+			for _, ma := range lastAddrs {
+				if addr, ok := ma.(*managedAddress); ok {
+					addr.lock()
+				}
+			}
+		}
+
+		// Wipe and drop all cached derived private keys.
+		var cachedPaths []DerivationPath
+		manager.privKeyCache.Range(
+			func(path DerivationPath, k *cachedKey) bool {
+				k.key.Zero()
+				cachedPaths = append(cachedPaths, path)
+				return true
+			},
+		)
+		for _, path := range cachedPaths {
+			manager.privKeyCache.Delete(path)
 		}
 	}
 
@@ -443,6 +468,10 @@ func (m *Manager) lock() {
 			case *managedAddress:
 				addr.lock()
 			case *scriptAddress:
+				addr.lock()
+			case *witnessScriptAddress:
+				addr.lock()
+			case *taprootScriptAddress:
 				addr.lock()
 			}
 		}
